@@ -55,6 +55,7 @@ func TestMain(m *testing.M) {
 			{ID: kSearchRev, Present: retry(probeSearchRev)},
 			{ID: kRenameID, Present: retry(probeRenameID)},
 			{ID: kDupAfterRead, Present: retry(probeDupAfterRead)},
+			{ID: kMasked, Present: retry(probeMasked)},
 		},
 	})
 }
@@ -905,7 +906,13 @@ func (h *harness) uniqueVerdict3(newDocs []*structpb.Struct, targets map[int]boo
 				continue
 			}
 			if held[k] {
-				conflictLive = true
+				if m.burnt[k] && excl(kMasked) {
+					// known finding K19k: the deleted index entry of an earlier holder of this key can hide the live holder
+					vk.CountExcluded(kMasked)
+					unpinned = true
+				} else {
+					conflictLive = true
+				}
 			}
 			if inBatch[k] {
 				conflictBatch = true
@@ -1115,6 +1122,18 @@ func (h *harness) liveSet(twin int) map[int]bool {
 	return out
 }
 
+// genLimitedWrite: a write query whose filter is pinned for every document (none, or id != some document) with a small limit.
+func (h *harness) genLimitedWrite(label string) qspec {
+	rt := h.rt
+	q := h.genQuery(label, false)
+	q.groups = nil
+	if rapid.Bool().Draw(rt, label+"ne") {
+		q.groups = [][]cmpT{{{field: h.m.idField, op: opNE, idRef: rapid.IntRange(0, len(h.m.docs)-1).Draw(rt, label+"neRef")}}}
+	}
+	q.limit = uint32(rapid.IntRange(1, 2).Draw(rt, label+"lim"))
+	return q
+}
+
 func (h *harness) genWriteQuery(label string) qspec {
 	rt := h.rt
 	q := h.genQuery(label, false)
@@ -1135,6 +1154,8 @@ func (h *harness) opReplace() {
 		if rapid.Bool().Draw(rt, "replaceExtraQuery") {
 			q = h.genWriteQuery("rq")
 		}
+	} else if len(m.docs) > 1 && rapid.IntRange(0, 3).Draw(rt, "replaceLimited") == 0 {
+		q = h.genLimitedWrite("rl")
 	} else {
 		q = h.genWriteQuery("rq")
 	}
@@ -1306,7 +1327,10 @@ func (h *harness) opDelete() {
 	rt := h.rt
 	m := h.m
 	var q qspec
-	if len(m.docs) > 0 && rapid.Bool().Draw(rt, "deleteByID") {
+	if len(m.docs) > 1 && rapid.IntRange(0, 3).Draw(rt, "deleteLimited") == 0 {
+		// "delete k of many": fully pinned filter, limit below the number of matches, random order
+		q = h.genLimitedWrite("dl")
+	} else if len(m.docs) > 0 && rapid.Bool().Draw(rt, "deleteByID") {
 		q = qspec{groups: [][]cmpT{{{field: m.idField, op: opEQ, idRef: rapid.IntRange(0, len(m.docs)-1).Draw(rt, "deleteTarget")}}}}
 		if rapid.Bool().Draw(rt, "deleteLimit1") {
 			q.limit = 1
@@ -1315,6 +1339,9 @@ func (h *harness) opDelete() {
 		q = h.genWriteQuery("dq")
 		if len(q.groups) == 0 && rapid.IntRange(0, 3).Draw(rt, "deleteAllOK") > 0 {
 			q.groups = [][]cmpT{{h.genCmp("dqc")}}
+		}
+		if q.limit == 0 && rapid.IntRange(0, 2).Draw(rt, "deleteLimit") == 0 {
+			q.limit = uint32(rapid.IntRange(1, 2).Draw(rt, "deleteLim"))
 		}
 	}
 	exp, targets, ok := h.writeTargets3(q)
